@@ -208,6 +208,14 @@ def find_action(p, name):
 def _effect_args(W, ed, scope):
     fl = W.expr(ed["fluent"], scope)
     val = pyconst(W, ed["value"]) if ed["value"][0] in ("int", "real", "bool", "o") else W.expr(ed["value"], scope)
+    if ed.get("deep"):
+        # a legal but very deep value expression (built iteratively): accepted like any other, but str() of it --
+        # which the library calls to render a conflict message -- overflows the interpreter stack
+        em = W.env.expression_manager
+        v_ = em.auto_promote(val)[0]
+        for n_ in range(int(ed["deep"])):
+            v_ = em.Plus(v_, 1) if n_ % 2 else em.Minus(v_, 1)
+        val = v_
     if ed.get("xreal") and ed["value"][0] in ("int", "real"):
         # an explicit REAL_CONSTANT node, also for an integral value (python numbers are auto-promoted to Int)
         val = W.env.expression_manager.Real(Fraction(ed["value"][1]))
@@ -342,6 +350,11 @@ def _apply(W, R, p, k, op):
         f = W.fluents[fd["name"]]
         if op.get("default") is None:
             p.add_fluent(f)
+        elif op.get("deep"):
+            v_ = W.expr(op["default"])
+            for n_ in range(int(op["deep"])):
+                v_ = W.em.Plus(v_, 1) if n_ % 2 else W.em.Minus(v_, 1)
+            p.add_fluent(f, default_initial_value=v_)
         else:
             p.add_fluent(f, default_initial_value=pyconst(W, op["default"]))
         return None
@@ -511,8 +524,15 @@ def _apply_htn(W, p, k, op):
 # ---------------------------------------------------------------- snapshots / invariants
 
 
+def _s(x):
+    try:
+        return str(x)
+    except RecursionError:
+        return "<an expression too deep to print>"
+
+
 def eff_str(e):
-    return f"{e.kind.name}|{e.fluent}|{e.value}|{e.condition}|{[str(v) for v in e.forall]}"
+    return f"{e.kind.name}|{_s(e.fluent)}|{_s(e.value)}|{_s(e.condition)}|{[str(v) for v in e.forall]}"
 
 
 def snap_action(a):
@@ -560,9 +580,9 @@ def snapshot(p):
     s = {
         "name": p.name,
         "fluents": [(f.name, str(f.type), [(q.name, str(q.type)) for q in f.signature]) for f in p.fluents],
-        "fluent_defaults": sorted((f.name, str(v)) for f, v in p.fluents_defaults.items()),
-        "type_defaults": sorted((str(t), str(v)) for t, v in p.initial_defaults.items()),
-        "init": sorted((str(k), str(v)) for k, v in p.explicit_initial_values.items()),
+        "fluent_defaults": sorted((f.name, _s(v)) for f, v in p.fluents_defaults.items()),
+        "type_defaults": sorted((str(t), _s(v)) for t, v in p.initial_defaults.items()),
+        "init": sorted((str(k), _s(v)) for k, v in p.explicit_initial_values.items()),
         "objects": [(o.name, str(o.type)) for o in p.all_objects],
         "types": [str(t) for t in p.user_types],
         "actions": [snap_action(a) for a in p.actions],
@@ -630,13 +650,13 @@ def compatible(ftype, v):
     # a non-constant expression: only the kind is judged (bounds of expressions are intervals)
     vk = kind_of_type(v.type)
     if fk == "bool":
-        return None if vk == "bool" else f"{vk} expression {v} stored for {ftype}"
+        return None if vk == "bool" else f"{vk} expression {_s(v)} stored for {ftype}"
     if fk == "int":
-        return None if vk == "int" else f"{vk} expression {v} stored for {ftype}"
+        return None if vk == "int" else f"{vk} expression {_s(v)} stored for {ftype}"
     if fk == "real":
-        return None if vk in ("int", "real") else f"{vk} expression {v} stored for {ftype}"
+        return None if vk in ("int", "real") else f"{vk} expression {_s(v)} stored for {ftype}"
     if fk == "user":
-        return None if vk == "user" and user_subtype(v.type, ftype) else f"{vk} expression {v} stored for {ftype}"
+        return None if vk == "user" and user_subtype(v.type, ftype) else f"{vk} expression {_s(v)} stored for {ftype}"
     return None
 
 
@@ -647,21 +667,21 @@ def stored_value_problems(p):
         return bad  # C23 is not anchored in the multi-agent model
     for fe, v in p.explicit_initial_values.items():
         if not v.is_constant():
-            bad.append(f"initial value of {fe} is the non-constant expression {v}")
+            bad.append(f"initial value of {fe} is the non-constant expression {_s(v)}")
         else:
             r = compatible(fe.fluent().type, v)
             if r:
                 bad.append(f"initial value of {fe}: {r}")
     for f, v in p.fluents_defaults.items():
         if not v.is_constant():
-            bad.append(f"default of fluent {f.name} is the non-constant expression {v}")
+            bad.append(f"default of fluent {f.name} is the non-constant expression {_s(v)}")
         else:
             r = compatible(f.type, v)
             if r:
                 bad.append(f"default of fluent {f.name}: {r}")
     for t, v in p.initial_defaults.items():
         if any(f.type == t for f in p.fluents):
-            r = compatible(t, v) if v.is_constant() else f"non-constant per-type default {v}"
+            r = compatible(t, v) if v.is_constant() else f"non-constant per-type default {_s(v)}"
             if r:
                 bad.append(f"per-type default for {t}: {r}")
     effs = []
@@ -1008,6 +1028,11 @@ class ModelHist(Engine):
                 if faulty:
                     op["default"], op["why"] = self.wrong_value(ro, fd["type"], objs, tmap)
                     op["faulty"] = "value"
+                    nums = [f for f in added_fl if f["type"][0] in ("int", "real") and not f["params"]]
+                    if nums and ro.random() < 0.2:
+                        # a NON-CONSTANT default, so deep that str() of it (the rejection message) overflows the stack
+                        op["default"], op["deep"] = ["f", ro.choice(nums)["name"]], 1500
+                        op["why"] = "non-constant default (too deep to print)"
                 else:
                     added_fl.append(fd)
                     regen()
@@ -1564,6 +1589,10 @@ class ModelHist(Engine):
                 ed["cond"] = None
             if ed["value"][0] in ("int", "real") and ro.random() < 0.15:
                 ed["xreal"] = True
+            ft = next(f["type"] for f in world["fluents"] if f["name"] == ed["fluent"][1])
+            if ft[0] in ("int", "real") and ft[1] is None and ft[2] is None and not ed.get("forall") and ro.random() < 0.07:
+                ed["deep"] = 1500
+                ed.pop("xreal", None)
             return {"ins": "effect", "effect": ed}
 
         multiset = []
@@ -1665,7 +1694,8 @@ class ModelHist(Engine):
                         cont = cont.clone()
                         ctx.probe("cloned-between-insertions")
                 ctx.ops += len(outs)
-                verdict = any(o == "conflict" for o in outs)
+                # (a rejection that dies with RecursionError while rendering its message is still a rejection)
+                verdict = any(o in ("conflict", "RecursionError") for o in outs)
                 verdicts.append((perm, verdict, outs))
                 ctx.ev("perm", perm, outs)
                 if first is None:
